@@ -548,8 +548,10 @@ func tamperTable() []tamper {
 	}
 	someStorage := func(t *rapid.T, d *core.StateDiff) (felt.Felt, felt.Felt, bool) {
 		var as []felt.Felt
-		for a := range d.StorageDiffs {
-			as = append(as, a)
+		for a, m := range d.StorageDiffs {
+			if len(m) > 0 { // a contract may be listed without any slot
+				as = append(as, a)
+			}
 		}
 		if len(as) == 0 {
 			return felt.Felt{}, felt.Felt{}, false
